@@ -338,6 +338,35 @@ def rule_e(ctx, ix):
                             cmps.append(n)
                     elif l.endswith(needle) and r.endswith(needle):
                         cmps.append(n)
+        # ... and the comparison decides: whenever the compared values differ, the "unchanged" exit is not taken (the loop is
+        # left through a break) - a difference that only counts together with some weaker test does not protect anything
+        if cmps:
+            from .. import cond as _c
+            from ..util import parent_map as _pm, enclosing as _enc
+            pmf = _pm(f.node)
+            decisive = True
+            for n in cmps:
+                lp = _enc(pmf, n, (ast.For, ast.While))
+                if lp is None:
+                    continue
+                st = n
+                while st is not None and not isinstance(st, ast.stmt):
+                    st = pmf.get(id(st))
+                breaks = [b for b in ast.walk(lp) if isinstance(b, (ast.Break,)) and _enc(pmf, b, (ast.For, ast.While)) is lp]
+                if not breaks:
+                    continue
+                try:
+                    B = _c.Or(*[_c.path_condition(f.node, b) or ('const', False) for b in breaks])
+                    differs = _c.formula(n, f.node)
+                    if isinstance(n.ops[0], (ast.Is, ast.Eq)):
+                        differs = _c.Not(differs)
+                    reach = _c.path_condition(f.node, st) or ('const', True)
+                    if not _c.implies(_c.And(reach, differs), B):
+                        decisive = False
+                except ValueError:
+                    pass
+            if not decisive:
+                cmps = []
         ctx.ob(R, f.construct, 'the shortcut compares %s of the stored and the new mapping' % what, bool(cmps),
                detail='%s returns early ("unchanged") without comparing %s: when the same attributes become reachable through other '
                       'links (a link replaced by one with another function, a shorter chain added) the dataset keeps deriving them '
